@@ -272,6 +272,13 @@ static void base_config(Rng &r, Case &c, const GenOpts &go, bool nonsingular) {
     c.transversal = P.transversal;
 }
 
+// generous estimate of the caller workspace a factorization of c needs with these tunables and up to P threads
+static long generous_lwork(const Case &c, const long ienv[9], long P) {
+    long n = c.M.n, nnz = c.M.nnz(), w = ienv[1];
+    long need = 1300 * nnz + 24L * n * n + 600L * n + P * ((2 * w + 8) * n * 8 + (n * w + 2 * n + (ienv[3] + ienv[4]) * w) * 16 + 64) + 65536;
+    return (2 * need) & ~7L;
+}
+
 static int pick_nprocs(Rng &r, int n) {
     int w = (int)r.below(100);
     if (w < 10) return 1;
@@ -419,6 +426,7 @@ Case gen_case(const std::string &profile, uint64_t seed, const GenOpts &go) {
         if (rc.chance(0.3)) op.x.u = 1.0;
         op.x.fact = rc.chance(0.6) ? 1 : 0;
         op.x.trans = (int)rc.below(3);
+        if (rc.chance(0.3)) { op.x.lwork = generous_lwork(c, op.ienv, 8); op.x.work_align = rc.chance(0.5) ? 4 : 0; }
         gen_sched(rs, op.sched, op.x.nprocs, baseline, profile);
         c.ops.push_back(op);
         if (rc.chance(0.4)) {
@@ -525,8 +533,8 @@ Case gen_case(const std::string &profile, uint64_t seed, const GenOpts &go) {
         GenOpts g2 = go; g2.tier = 0;
         base_config(rc, c, g2, true);
         int n = c.M.n;
-        if (n > 30 || n < 2) {
-            n = (int)rc.range(2, 30); int fam = (int)rc.below(F_COUNT); Pattern P = gen_pattern(rc, n, fam);
+        if (n > 48 || n < 2) {
+            n = (int)rc.range(2, 48); int fam = (int)rc.below(F_COUNT); Pattern P = gen_pattern(rc, n, fam);
             c.M = pattern_to_mat(P); c.family = family_names[fam]; c.transversal = P.transversal;
             c.values.clear(); c.values.push_back(gen_values(rc, c.M, V_DOMINANT, c.prec, P.transversal)); c.M.val = c.values[0]; c.valclass = "dominant"; c.tags["valclass"] = V_DOMINANT;
             c.ldb = n; if (c.nrhs == 0) c.nrhs = 1; c.rhs.clear(); std::vector<cld> b((size_t)c.ldb * c.nrhs, cld(1, 0)); c.rhs.push_back(b);
@@ -546,7 +554,7 @@ Case gen_case(const std::string &profile, uint64_t seed, const GenOpts &go) {
         c.tags["alloc_item"] = item;
         gen_sched(rs, op.sched, op.x.nprocs, item == 0, profile);
         long K = std::max(1L, go.alloc_K);
-        long nfault = std::min<long>(go.S - 3 - 24, 2 * K + 16);
+        long nfault = std::min<long>(go.S - 3 - 36, 2 * K + 16);
         if (item == 0) c.tags["alloc_mode"] = 0;                       // fault-free baseline
         else if (item == 1) { c.tags["alloc_mode"] = 1; if (expert) op.x.lwork = -1; }   // workspace query
         else if (item == 2) { c.tags["alloc_mode"] = 2; if (expert) { op.x.lwork = go.lwork_sufficient > 0 ? go.lwork_sufficient : (8L << 20); op.x.work_align = rc.chance(0.5) ? 4 : 0; } }
@@ -560,14 +568,21 @@ Case gen_case(const std::string &profile, uint64_t seed, const GenOpts &go) {
             c.tags["alloc_mode"] = 5;
             long j = item - 3 - nfault;
             long lw = 0;
-            long slots = go.S - 3 - nfault, nb = std::max<long>(1, (slots - 6) / 3);
+            long slots = go.S - 3 - nfault, nb = std::max<long>(1, (slots - 12) / 3);
             if (!go.bounds.empty() && j < 3 * nb) {
                 // boundaries spread over the whole list, always including the peak
                 long bi = std::min<long>((long)go.bounds.size() - 1, (j / 3 + 1) * (long)go.bounds.size() / nb - 1);
                 if (bi < 0) bi = 0;
                 lw = go.bounds[bi] + (j % 3 - 1) * 8 + (j % 3 == 2 ? 8 : 0);
             }
-            else { long suff = go.lwork_sufficient > 0 ? go.lwork_sufficient : (1L << 20); lw = 1 + (long)rs.below((uint64_t)suff); }
+            else {
+                long suff = go.lwork_sufficient > 0 ? go.lwork_sufficient : (1L << 20);
+                // geometric ladder below the sufficient size: reaches the halving retries of the initial allocation
+                static const double frac[] = {0.7, 0.5, 0.35, 0.25, 0.18, 0.12, 0.09, 0.06, 0.045, 0.03, 0.02, 0.012};
+                long jj = j - 3 * nb;
+                if (jj >= 0 && jj < 12 && rs.chance(0.7)) lw = (long)(suff * frac[jj] * (0.9 + 0.2 * rs.unit()));
+                else lw = 1 + (long)rs.below((uint64_t)suff);
+            }
             // the TAIL end of the workspace is not aligned by the library: a length that is not a multiple of the word size
             // would misalign its own integer arrays, which no documented precondition allows
             lw &= ~7L;
